@@ -26,10 +26,63 @@ from common import canon_err
 PROP = "C05"
 LEAN_MODULE = "SkVerif.Props.C05"
 OBLIGATIONS = [
+    "SkVerif.C05.swt_rows_eq_spec",
+    "SkVerif.C05.swt_row_count",
+    "SkVerif.C05.swt_no_future",
+    "SkVerif.C05.swt_no_padding_leak",
+    "SkVerif.C05.swt_rejects_short_series",
+    "SkVerif.C05.fit_rejects_short_series",
+    "SkVerif.C05.tabular_layout_consistent",
+    "SkVerif.C05.direct_predict_uses_last_window",
+    "SkVerif.C05.multioutput_predict_uses_last_window",
+    "SkVerif.C05.recursive_feedback_eq_spec",
+    "SkVerif.C05.recForecast_length",
+    "SkVerif.C05.dirrec_feedback_matches_training_layout",
+    "SkVerif.C05.returned_step_h_is_output_h",
+    "SkVerif.C05.update_extends_observed_series",
+    "SkVerif.C05.update_refit_eq_fit",
+    "SkVerif.C05.horizon_order_irrelevant",
 ]
-TRUSTED = []
-ASSUMPTIONS = []
-RULE = ""
+TRUSTED = [
+    "hand-written model SkVerif/Model/Reduce.lean of _reduce.py and of the window-forecaster base-class parts it uses "
+    "(faithful to the extent the correspondence exercises it: every observable = every argument every regressor clone received, "
+    "every value it returned, the forecast labels and values, the error kind and the stage it was raised in)",
+    "SkVerif/Spec/Reduce.lean as the reading of the property text (rows = z[r..r+wl) per variable, target = y[r+wl+h-1], "
+    "recursive feedback, dirrec row = window ++ earlier steps)",
+    "recording regressors defined in harness/corr/C05.py (copy arguments, return a position-sensitive polynomial hash mod 2^31-1; "
+    "the Lean driver evaluates the same hash, the theorems hold for arbitrary regressors)",
+    "skcompat.patch_reduce: numpy<1.25 semantics of `y_pred[i] = array([v])` inside _reduce.py",
+]
+ASSUMPTIONS = [
+    "relative integer horizons and a contiguous integer (RangeIndex) time index; absolute / datetime / period horizons and gapped indices are C02/C03 territory",
+    "update batches continue the index contiguously and carry X exactly when fit did (the driver refuses other shapes)",
+    "a regressor is a deterministic function of (training X, training y, instance); a multi-output regressor returns one output per target column",
+    "theorems are stated for finite last windows (the code forecasts NaN otherwise: modelled and compared, not a property clause) and for the "
+    "horizon in the increasing order in which ForecastingHorizon stores it (horizon_order_irrelevant covers permutations)",
+    "non-finite floats only as tokens nan/inf/-inf; floating-point rounding is not involved (values are moved, never computed on)",
+]
+RULE = ("exhaustive small scope in fixed order: n in 1..12 x window_length 1..4 x every non-empty fh subset of {1..4} x 4 strategies x 2 scitypes x "
+        "with/without 2 exogenous columns, plus the transform alone over the same scope with 0/1/2 columns (quick: seed-rotated 1/4 resp. 1/3 slice, "
+        "thorough: all); structured random (n up to 200, window up to 14, gapped/contiguous/permuted horizons up to step 8, 0-3 exogenous columns, "
+        "update with/without refit, horizon given at fit and/or predict, NaN/inf/duplicate values, np.int64 window); malformed stream (bad window, bad / "
+        "in-sample / duplicate / empty / missing horizon, different horizon at predict, empty and too-short series around the bound, dirrec with X, "
+        "missing / broadcastable / mis-shaped future X, refit without horizon); corpus. Distinct by driver line; non-trivial = no error and at least one "
+        "regressor.predict call was recorded")
+LEVEL_TEXT = ("Lean 4 theorems, for all series, window lengths, out-of-sample horizons (contiguous or gapped), exogenous column counts, both scitypes and "
+              "ALL regressors (arbitrary functions), about an executable model of _reduce.py that follows the code's algorithm (zero-padded cube, slice, "
+              "target/lag read-out, tabular reshape, the four _fit bodies, _get_last_window, the four _predict_last_window loops with array mutation): "
+              "the model's end-to-end behaviour `fit; predict` EQUALS an independently written specification, for each of the four strategies "
+              "(training rows = every full lagged window once, targets exactly h steps after the window, no dependence on the future or on the padding, "
+              "prediction input = last window in the training layout, recursive/dirrec feedback of earlier outputs, returned step h = output for step h, "
+              "too-short series rejected). The model is tied to /repo's current source by a differential correspondence on every run: recording "
+              "regressors capture every fit/predict argument verbatim and the model must reproduce all of them, the forecasts and the error kinds.")
+LEVEL_NOTE = ("Proved for the model: all sixteen obligations, no size bounds. Only observed by correspondence (not proved): that the Python code computes "
+              "what the model computes; error kinds of malformed inputs other than the too-short series; numpy broadcasting of a one-row future X; "
+              "the NaN forecast for a non-finite last window; scitype inference. Not covered: absolute/datetime horizons, gapped indices, update batches "
+              "that overlap or leave gaps, in-sample forecasts (the code raises NotImplementedError), prediction intervals. Trusted: Lean kernel, "
+              "propext/Classical.choice/Quot.sound, harness + compat layer, the spec as a reading of the property text.")
+TECHNIQUE = ("Lean 4 proof (list algebra over the index arithmetic of the padded cube, loop invariants for the two feedback loops, refinement of "
+             "`run` against a specification) + differential correspondence with recording regressors")
 
 STRATEGIES = ["direct", "recursive", "multioutput", "dirrec"]
 P = 2147483647
@@ -888,7 +941,7 @@ def gen_cases(tier, rng):
                     for sci in ("tab", "ts"):
                         for nc in (0, 2):
                             k += 1
-                            if quick and (k + rot) % 10 != 0:
+                            if quick and (k + rot) % 2 != 0:
                                 continue
                             if strategy == "dirrec" and nc:
                                 if (k // 7) % 6:       # dirrec+X is always NotImplementedError: keep a few
@@ -905,11 +958,11 @@ def gen_cases(tier, rng):
                 for sci in ("tab", "ts"):
                     for nc in (0, 1, 2):
                         k += 1
-                        if quick and (k + rot) % 6 != 0:
+                        if quick and (k + rot) % 3 != 0:
                             continue
                         cases.append({"op": "swt", "sci": sci, "wl": wl, "fh": list(fh), "y": _vals(rng, n), "X": _mkX(rng, n, nc, 1000)})
     # ---- (2) structured random, mostly valid, n up to 200
-    nr = 260 if quick else 3000
+    nr = 2000 if quick else 12000
     for _ in range(nr):
         strategy = rng.choice(STRATEGIES)
         wl = min(int(rng.lognormvariate(1.0, 0.8)) + 1, 14)
@@ -954,7 +1007,7 @@ def gen_cases(tier, rng):
         if rng.random() < 0.1 and isinstance(c["wl"], int):
             c["wl"] = "np%d" % c["wl"]
         cases.append(c)
-    nr = 60 if quick else 600
+    nr = 150 if quick else 2000
     for _ in range(nr):
         wl = rng.randrange(1, 10)
         fh = sorted(rng.sample(range(1, 9), rng.choice([1, 2, 3])))
